@@ -6,6 +6,7 @@ import (
 	"net/http/httptest"
 	"net/url"
 	"sort"
+	"strconv"
 	"strings"
 
 	"github.com/gookit/rux"
@@ -172,8 +173,17 @@ func c15Exec(c Sx) (out Sx) {
 				panic("c15: duplicate argument key")
 			}
 			seen[k] = true
-			m[k] = p.List[1].Str()
-			kv = append(kv, k, p.List[1].Str())
+			// values are not only strings: a value that is the canonical spelling of an integer is passed as an int
+			var val any = p.List[1].Str()
+			if n, err := strconv.Atoi(p.List[1].Str()); err == nil && strconv.Itoa(n) == p.List[1].Str() {
+				if n%2 == 0 {
+					val = n
+				} else {
+					val = int64(n)
+				}
+			}
+			m[k] = val
+			kv = append(kv, k, val)
 		}
 		var built interface {
 			String() string
@@ -186,10 +196,6 @@ func c15Exec(c Sx) (out Sx) {
 		case "kv":
 			if len(kv) == 0 {
 				uu := rr.r.BuildURL(name)
-				path, rawq, built = uu.Path, uu.RawQuery, uu
-			} else if len(kv) == 2 {
-				// a single pair is taken as one odd argument by ToURL: use the map style instead
-				uu := rr.r.BuildURL(name, m)
 				path, rawq, built = uu.Path, uu.RawQuery, uu
 			} else {
 				uu := rr.r.BuildURL(name, kv...)
@@ -223,6 +229,18 @@ func c15Exec(c Sx) (out Sx) {
 			}
 			uu := rr.r.GetRoute(name).ToURL(b)
 			path, rawq, built = uu.Path, uu.RawQuery, uu
+		}
+		// building the same URL again gives the same URL (nothing is remembered on the route or in the router)
+		if c.List[3].Sym() != "b" {
+			var again interface{ String() string }
+			if c.List[3].Sym() == "kv" && len(kv) > 0 {
+				again = rr.r.BuildURL(name, kv...)
+			} else {
+				again = rr.r.BuildURL(name, m)
+			}
+			if again.String() != built.String() {
+				return L(L(A("built"), A("second-build-differs"), S(built.String()), S(again.String())), L(A("match"), A("none")), L(A("srv"), A("skipped")))
+			}
 		}
 		// decoded query pairs
 		var q []Sx
